@@ -1596,6 +1596,14 @@ def py_mout(case):
         if cls == NOTFOUND:
             return None              # the 404 rule needs the model of the listing request
         return [[cls, 0], n, 0, int(case.get('verified', False)), [cls, 0]]
+    if kind == 'token':
+        t = case['token']
+        bad = (t['nseg'] != 3 or not t['header_ok'] or not t['claims_ok'] or (t['alg'] == 'ES256' and t['siglen'] != 86)
+               or (t['exp'] is not None and (not isinstance(t['exp'], int) or case['now'] > t['exp']))
+               or not t['has_prefix'] or (case['scheme'] != 'https' and case['host'] != '127.0.0.1')
+               or not any(case['path'].startswith(x) for x in t['prefixes']))
+        cls, n = py_spec(case['cfg'], len(pls[case['payload']]['data']), case['fs'])
+        return [[INVALIDTOK, 0], 0, 1, 0] if bad else [[cls, 0], n, 0, 0]
     if kind == 'site' and case['site'] in ('put', 'complete') and case.get('empty', True):
         cls, n = py_spec(case['cfg'], 0, case['fs'])
         if case['site'] == 'put':
@@ -1619,6 +1627,12 @@ def safe_model(ctx, cases):
         if out[i] is None:
             out[i] = py_mout(c)
             ctx.count('python_spec_fallback' if out[i] is not None else 'skipped_no_model_wire')
+        elif not left and c['kind'] == 'token' and not _state.get('stale'):
+            ctx.count('python_spec_crosschecked')
+            if py_mout(c)[2] != out[i][2]:
+                ctx.disagree('kind=token;what=python_reference_spec_differs_from_extracted_spec', c,
+                             dict(python=py_mout(c)[2]), dict(extracted=out[i][2]), 'harness: the python copy of the '
+                             'bad-token disjunction differs from the extracted spec', kind='tie')
         elif not left and c['kind'] in ('rdb', 'chunk', 'site') and not _state.get('stale'):
             ref = py_mout(c)
             if ref is not None:
